@@ -40,7 +40,7 @@ Print Assumptions C11_ledger_is_the_run.
       (= accumulated(w) if this is the first claim) —
     nothing if E = 0, F = 0, e < min energy, f < min position or R = 0, and otherwise
       min (maxF*R*f/F) ((R*cE*e/E + R*cF*f/F)/(cE+cF))   (floor divisions), paid iff positive.
-    (cE + cF = 0 with all thresholds met makes the operation fail: division by zero.) *)
+    (cE + cF = 0 cannot occur in a reachable state: [C11_no_division_by_zero].) *)
 Theorem C11_formula : forall s g op s' out u cur pos,
   BInv s g -> step s op = Ok (s', out) -> claim_of op = Some (u, cur, pos) ->
   (o_det out = [] /\ (bh_cfg (b_h s) = None \/ view_progress s u = None \/
@@ -261,14 +261,46 @@ Theorem C11_factors_log : forall ops s g,
 Proof. exact fac_log_is_calls. Qed.
 Print Assumptions C11_factors_log.
 
-(** Guard: setBoostedYieldsFactors succeeds exactly for the admin with both minimums positive (all arguments BigUints);
-    in particular cE + cF = 0 and maxF = 0 are accepted. *)
+(** Guard: setBoostedYieldsFactors succeeds exactly for the admin with both minimums positive and at least one of the
+    two reward constants positive (all arguments BigUints); maxF = 0 is accepted. *)
 Theorem C11_factors_guard : forall s g c f,
   BInv s g ->
   ((exists s' out, ep_set_factors s c f = Ok (s', out)) <->
-   (c = ADMIN /\ 0 <= fa_max f /\ 0 <= fa_ce f /\ 0 <= fa_cf f /\ 0 < fa_mine f /\ 0 < fa_minf f)).
+   (c = ADMIN /\ 0 <= fa_max f /\ 0 <= fa_ce f /\ 0 <= fa_cf f /\ 0 < fa_mine f /\ 0 < fa_minf f /\
+    (0 < fa_ce f \/ 0 < fa_cf f))).
 Proof. exact set_factors_guard. Qed.
 Print Assumptions C11_factors_guard.
+
+(** No division by zero: in every reachable state every entry of the stored register — the running week's factors and
+    the four previous weeks' — has cE, cF >= 0 and cE + cF > 0 ([fac_ok]), and so has every entry of the register as
+    brought to the current week by a claim (refilled slots are copies of accepted settings; there are no empty /
+    default slots: the register always holds NSLOTS accepted entries).  Hence every [get_factors_for_week] result has
+    cE + cF > 0, the formula's [div_chk] cannot fail, and whenever get_user_rewards_for_week fails for whatever
+    inputs, the cause is one of: the week is outside the register, no config at the freeze, a malformed stored
+    total, or the guard remaining -= reward — never the division. *)
+Theorem C11_no_division_by_zero : forall epoch ops,
+  let s := fst (bgrun (init_b epoch, bg0) ops) in let cw := bcur_week s in
+  forall c, bh_cfg (b_h s) = Some c ->
+    (forall fa, In fa (c_slots c) -> fac_ok fa) /\
+    forall cfg, cfg_update c cw None = Ok cfg ->
+      (forall fa, In fa (c_slots cfg) -> fac_ok fa) /\
+      (forall w fa, get_factors_for_week cfg w = Ok fa ->
+         fac_ok fa /\ forall x, div_chk x (fa_ce fa + fa_cf fa) = Ok (x / (fa_ce fa + fa_cf fa))) /\
+      (forall pos h0 s0 w e E err, boosted_hook pos cfg cw h0 s0 w e E = Err err ->
+         (exists e1, get_factors_for_week cfg w = Err e1) \/
+         (exists e1, b_collect_and_get cw h0 s0 w = Err e1) \/
+         (exists h1 s1 tot, b_collect_and_get cw h0 s0 w = Ok (h1, s1, tot) /\ (2 <= length tot)%nat) \/
+         (exists fa h1 s1 t R,
+            get_factors_for_week cfg w = Ok fa /\ b_collect_and_get cw h0 s0 w = Ok (h1, s1, [(t, R)]) /\ R <> 0 /\
+            0 < boosted_amount fa R pos (aget (bh_sup h0) w) e E /\
+            aget (bh_rem h1) w < boosted_amount fa R pos (aget (bh_sup h0) w) e E)).
+Proof. exact reach_no_div0. Qed.
+Print Assumptions C11_no_division_by_zero.
+
+(** ... because every accepted setting satisfies it *)
+Theorem C11_accepted_factors_ok : forall s c f s' out, ep_set_factors s c f = Ok (s', out) -> fac_ok f.
+Proof. exact set_factors_ok. Qed.
+Print Assumptions C11_accepted_factors_ok.
 
 (** ------------------------------------------------------------------ 6. conservation *)
 (** Conservation: in every reachable state  sum_w accumulated + sum_w remaining + undistributed + all boosted payments
@@ -295,8 +327,7 @@ Print Assumptions C11_conservation_totals.
     module-level model the position [pos] and the supply are operation inputs, so the statement belongs to the
     composition with Model/Farm.v (whose input [b] is this model's [o_b]).  Here the guard is part of the model
     ([sub_chk]): sum paid <= R holds unconditionally ([C11_pool]); an over-subscribed week makes the operation fail.
-    Likewise a configuration with cE + cF = 0 — accepted by the setter, [C11_factors_guard] — makes every settlement
-    that reaches the formula fail with a division by zero ([div_chk]); [C11_formula] covers successful operations. *)
+    The division of the formula, in contrast, can never fail in a reachable state ([C11_no_division_by_zero]). *)
 
 (** Non-vacuity: percentage 25 %, factors (2,3,2,1,1); two users with different energies enter in week 1 (pool 500);
     in week 2 the factors change, then both settle week 1 with the OLD factors — 276 = min(333, (1050+333)/5) and
@@ -324,5 +355,5 @@ Example C11_nonvacuous :
   view_und s = 1101 /\ view_lastcol s = 3 /\ g_tcuts g = 1600 /\ g_tpaid g = 499 /\ g_tswept g = 1101 /\
   view_acc s 2 = 0 /\ view_rem s 1 = 0 /\
   g_fac g = Some (mkFac 2 3 2 1 1, [(2, mkFac 1 1 1 1 1)]) /\
-  step s (BCollect 7) = Err EPerm.
+  step s (BCollect 7) = Err EPerm /\ step s (BSetFactors 100 (mkFac 2 0 0 1 1)) = Err EGuard.
 Proof. vm_compute. repeat split. Qed.
